@@ -89,6 +89,15 @@ INFO = {
 
  'C10-m5': ("three cooperating edits: resolve broadcasts only if the batch had waiters (stale snapshot); a Start runner releases the item lock before swapping the map entry; the final wake-up uses Signal", 'a Start runner, a Call registering in the unlock-to-swap gap, a second Call during the work, then quiescence: the second call is never answered and the key stays in the map'),
 
+ 'C03-m5': ('Buffer.commit clamps the stored committed offset to the buffer start (independent rediscovery of C01-2)', 'a forced trim past a consumer\'s read position while it holds uncommitted reads, then Commit: it is silently re-based and reads on without an error'),
+ 'C03-m6': ("Buffer.Put adopts the caller's variadic slice when the buffer is empty (independent rediscovery of C01-4)", 'a producer reusing its batch slice: Slice/streams show overwritten values'),
+ 'C04-m5': ("a wake-up during the cooldown also resets the timer ('debounce')", 'traffic that never pauses for a whole cooldown: the re-check never fires and nothing is reclaimed while the traffic lasts'),
+ 'C04-m6': ("in-window changes are remembered only when a consumer exists", 'FixedBufferCleaner, no consumers, a burst of Puts crossing max inside an open cooldown window, then silence: the buffer stays above max'),
+ 'C15-m5': ("a nil publish overwrites its own value with the first nillable subscriber's typed zero", 'Publish(key, nil) to two or more subscriptions with different nillable element types: the later ones are skipped or get a typed nil'),
+ 'C15-m6': ("assignability narrowed to 'identical type, or implements the interface'", 'a value and element type that are assignable by the other rules: named/unnamed with the same underlying type, bidirectional to directional channel'),
+ 'C16-m5': ('ConflatedContext skips inputs whose Done() is nil', 'a never-cancellable input (context.Background) next to inputs that get cancelled: the result is cancelled although an input is live forever'),
+ 'C16-m6': ("CombineContext folds a deadline-bearing other into WithDeadline instead of registering a callback", 'an other that carries a deadline and is cancelled early (defer cancel / cancelled parent): the result stays live until the deadline'),
+
 }
 
 def main():
